@@ -301,6 +301,13 @@ class Table:
         self._add("ptadd", [list(p33), list(q33)], list(r), (p33, q33))
         return r
 
+    def uncompress(self, p33):
+        p33 = bytes(p33)
+        pt = parse_sec(p33)
+        r = sec(pt, False) if pt is not None else b""
+        self._add("uncompress", list(p33), list(r), p33)
+        return r
+
     def secnorm(self, s):
         s = bytes(s)
         pt = parse_sec(s)
